@@ -269,6 +269,12 @@ fn main() {
         for i in 0..7 {
             let (a, b, c) = (OPS[i], OPS[(i + 1) % 7], OPS[(i + 4) % 7]);
             families.push((format!("3x2 {:?}/{:?}/{:?}", a, b, c), vec![vec![a, b], vec![b, c], vec![c, a]], Some(3)));
+            // deeper: three first calls on one cell with NO preemption bound,
+            // four threads, three calls per thread, and a higher bound
+            families.push((format!("3x1 same-cell {:?} (unbounded)", a), vec![vec![a], vec![a], vec![a]], None));
+            families.push((format!("4x1 same-cell {:?}", a), vec![vec![a], vec![a], vec![a], vec![a]], Some(3)));
+            families.push((format!("2x3 {:?}/{:?} (unbounded)", a, b), vec![vec![a, b, a], vec![b, a, b]], None));
+            families.push((format!("3x2 same-cell {:?} (bound 4)", a), vec![vec![a, a], vec![a, a], vec![a, b]], Some(4)));
         }
     }
     let only = args.get("family").map(|s| s.to_string());
@@ -295,7 +301,7 @@ fn main() {
         for i in 0..8 {
             detect_total[i] += o.detect_hist[i];
         }
-        total.bump_by(&format!("interleavings/{}", if bound.is_some() { "3 threads (preemption bound 3)" } else { "2 threads (unbounded)" }), o.executions);
+        total.bump_by(&format!("interleavings/{} threads ({})", progs.len(), match bound { Some(b) => format!("preemption bound {}", b), None => "unbounded".to_string() }), o.executions);
         total.sample(total.states, || json!({"program": name, "threads": progs.iter().map(|p| p.iter().map(|o| format!("{:?}", o)).collect::<Vec<_>>()).collect::<Vec<_>>(), "preemption_bound": bound, "interleavings": o.executions, "detect_runs_histogram": o.detect_hist}));
         for m in o.mismatches {
             total.violation(Violation {
@@ -364,7 +370,7 @@ fn main() {
     }
     let extra = json!({
         "engine": if cfg!(memchr_verif_loomcopy) { "loomcheck (loom 0.7.2; every atomic/std::sync primitive of a scratch copy of the crate rewritten to loom)" } else { "loomcheck (loom 0.7.2 on the real unsafe_ifunc! cells)" }, "tier": if thorough { "thorough" } else { "quick" },
-        "bounds": {"programs": families.len(), "two_thread_programs": "unbounded preemptions", "three_thread_programs": "preemption bound 3"},
+        "bounds": {"programs": families.len(), "two_thread_programs": "unbounded preemptions", "three_thread_programs": "preemption bound 3 (thorough: also 3x1 unbounded and 3x2 at bound 4)", "four_thread_programs": "thorough: preemption bound 3"},
         "nontrivial_rule": "an execution is non-trivial when CPU detection ran more often than the number of distinct dispatch cells the program touches, i.e. two threads raced through the same cell's first call",
         "exhaustive": true,
         "wall_s": t0.elapsed().as_secs_f64(),
